@@ -75,7 +75,7 @@ Print Assumptions C06_priced.
 (* add_change is the pricing phase followed by the top-up *)
 Theorem C06_split :
   forall (O : Type) (orc : @oracle O) fuel addr extra s (o : O),
-    add_change orc fuel addr extra s o = bindM (add_change_pre orc fuel addr extra) (finish_change (O:=O)) s o.
+    add_change orc fuel addr extra s o = bindM (add_change_pre orc fuel addr extra) (finish_change orc) s o.
 Proof. exact @add_change_split. Qed.
 Print Assumptions C06_split.
 
@@ -89,34 +89,24 @@ Proof. intros O orc e H. exact (add_change_policy orc e H). Qed.
 Print Assumptions C06_policy.
 Check policy_premises.
 
-(* build_tx's final guard: a transaction that build_tx returns carries the fee of the state and that fee covers
-   the ledger minimum of the (fake full = signed) transaction — whatever happened before *)
+(* build_tx's final guard (validate_fee, as repaired in /repo 0fc161c): a transaction that build_tx returns carries the
+   fee of the state, that fee covers the ledger minimum of the (fake full = signed) transaction, and it honours the fee
+   request, whenever set_fee / set_min_fee were called (before or AFTER add_change) — whatever happened before *)
 Theorem C06_validate :
   forall (O : Type) (orc : @oracle O) (e : env), fee_exact e orc ->
   forall body s s' (o o' : O),
     build_tx orc s o = mkOut (Ok body) s' o' ->
-    exists F, get_fee_if_set s = Some F /\ b_fee body = F /\ need e s F <= F.
+    exists F, get_fee_if_set s = Some F /\ b_fee body = F /\ need e s F <= F /\ policy_ok (s_fee_request s) F.
 Proof. intros O orc e H. exact (build_tx_validates orc e H). Qed.
 Print Assumptions C06_validate.
 Check build_premises.
-
-(* build_tx as repaired in /repo 0fc161c (the fee request is compared with the stored fee first): the body's fee
-   also honours the request, whenever set_fee / set_min_fee were called (before or AFTER add_change) *)
-Theorem C06_policy_build :
-  forall (O : Type) (orc : @oracle O) (e : env), fee_exact e orc ->
-  forall body s s' (o o' : O),
-    build_tx6 orc s o = mkOut (Ok body) s' o' ->
-    exists F, get_fee_if_set s = Some F /\ b_fee body = F /\ need e s F <= F /\ policy_ok (s_fee_request s) F.
-Proof. intros O orc e H. exact (build_tx6_validates orc e H). Qed.
-Print Assumptions C06_policy_build.
-Check build6_premises.
 
 (* the code before the repair built a transaction with the computed fee although a different fee had been fixed *)
 Theorem C06_late_fee_request_legacy_refuted :
   let orc := size_oracle Witness.e_main 4310 5000 in
   let s1 := set_s_fee_request (FeeExactly 1000000) (out_st (add_change orc 10 1 0 Witness.s_tok tt)) in
-  (exists body, out_res (build_tx orc s1 tt) = Ok body /\ b_fee body = 165897) /\
-  out_res (build_tx6 orc s1 tt) = Err.
+  (exists body, out_res (build_tx_legacy orc s1 tt) = Ok body /\ b_fee body = 165897) /\
+  out_res (build_tx orc s1 tt) = Err.
 Proof. exact late_fee_request_legacy_refuted. Qed.
 Print Assumptions C06_late_fee_request_legacy_refuted.
 
